@@ -149,6 +149,7 @@ theorem evalLit_spec {cells : List (List Int)} {lit : Lit} {v : Val} {cells' : L
     (h : evalLit cells lit = (v, cells')) :
     (∃ extra, cells' = cells ++ extra) ∧ (∀ c : Nat, c ∈ v.cells → cells.length ≤ c ∧ c < cells'.length) := by
   cases lit with
+  | pending => simp [evalLit] at h; obtain ⟨rfl, rfl⟩ := h; exact ⟨⟨[], by simp⟩, by simp [Val.cells]⟩
   | none => simp [evalLit] at h; obtain ⟨rfl, rfl⟩ := h; exact ⟨⟨[], by simp⟩, by simp [Val.cells]⟩
   | int n => simp [evalLit] at h; obtain ⟨rfl, rfl⟩ := h; exact ⟨⟨[], by simp⟩, by simp [Val.cells]⟩
   | list l =>
@@ -512,11 +513,11 @@ theorem InstEffect.of_cells_touch {w1 : World} {i : InstId} {cells2 : List (List
   ⟨⟨by simp [hl], fun _ hc => Or.inl hc, fun _ J' hJ' _ hc => Or.inl ⟨J', hJ', hc⟩,
     fun _ J' hJ' _ hc => Or.inl ⟨J', hJ', hc⟩⟩, rfl, fun _ _ => rfl, fun c _ h => ht c h⟩
 
-theorem doSetInst_own {w : World} {i : InstId} {x : Name} {lit : Lit} {I : Inst} {k' : ClsId} {P : PObj}
+theorem doSetInstCore_own {w : World} {i : InstId} {x : Name} {lit : Lit} {I : Inst} {k' : ClsId} {P : PObj}
     (hI : w.insts[i]? = some I) (hr : w.resolve I.cls x = some (k', P))
     (hown : (aget I.params x).isSome ∨ P.perInstance = true) :
-    InstEffect w (doSetInst w i x lit).1 i := by
-  simp only [doSetInst, World.inst?, hI, hr]
+    InstEffect w (doSetInstCore w i x lit).1 i := by
+  simp only [doSetInstCore, World.inst?, hI, hr]
   generalize hev : evalLit w.cells lit = r
   obtain ⟨v, cells1⟩ := r
   obtain ⟨⟨extra, rfl⟩, hv⟩ := evalLit_spec hev
@@ -557,17 +558,17 @@ theorem doSetInst_own {w : World} {i : InstId} {x : Name} {lit : Lit} {I : Inst}
           · exact Or.inl (Or.inr hc)
         · intro c hc; exact Or.inl hc
 
-theorem doSetInst_effect (w : World) (i : InstId) (x : Name) (lit : Lit) :
-    Effect w (doSetInst w i x lit).1 (some i) := by
+theorem doSetInstCore_effect (w : World) (i : InstId) (x : Name) (lit : Lit) :
+    Effect w (doSetInstCore w i x lit).1 (some i) := by
   cases hI : w.insts[i]? with
-  | none => simp [doSetInst, World.inst?, hI]; exact Effect.refl _ _
+  | none => simp [doSetInstCore, World.inst?, hI]; exact Effect.refl _ _
   | some I =>
     cases hr : w.resolve I.cls x with
-    | none => simp [doSetInst, World.inst?, hI, hr]; exact Effect.refl _ _
+    | none => simp [doSetInstCore, World.inst?, hI, hr]; exact Effect.refl _ _
     | some kP =>
       obtain ⟨k', P⟩ := kP
       by_cases hown : (aget I.params x).isSome ∨ P.perInstance = true
-      · exact (doSetInst_own hI hr hown).toEffect
+      · exact (doSetInstCore_own hI hr hown).toEffect
       · have h0 : aget I.params x = none := by
           cases h : aget I.params x with
           | none => rfl
@@ -576,7 +577,7 @@ theorem doSetInst_effect (w : World) (i : InstId) (x : Name) (lit : Lit) :
           cases h : P.perInstance with
           | false => rfl
           | true => simp [h] at hown
-        simp only [doSetInst, World.inst?, hI, hr]
+        simp only [doSetInstCore, World.inst?, hI, hr]
         generalize hev : evalLit w.cells lit = r
         obtain ⟨v, cells1⟩ := r
         obtain ⟨⟨extra, rfl⟩, hv⟩ := evalLit_spec hev
@@ -602,6 +603,22 @@ theorem doSetInst_effect (w : World) (i : InstId) (x : Name) (lit : Lit) :
                 · exact Or.inl (Or.inl ⟨xv, hm, hc⟩)
               · exact Or.inl (Or.inr hc)
             · intro c hc; exact Or.inl hc
+
+theorem doSetInst_own {w : World} {i : InstId} {x : Name} {lit : Lit} {I : Inst} {k' : ClsId} {P : PObj}
+    (hI : w.insts[i]? = some I) (hr : w.resolve I.cls x = some (k', P))
+    (hown : (aget I.params x).isSome ∨ P.perInstance = true) :
+    InstEffect w (doSetInst w i x lit).1 i := by
+  unfold doSetInst
+  split
+  · exact InstEffect.refl w i
+  · exact doSetInstCore_own hI hr hown
+
+theorem doSetInst_effect (w : World) (i : InstId) (x : Name) (lit : Lit) :
+    Effect w (doSetInst w i x lit).1 (some i) := by
+  unfold doSetInst
+  split
+  · exact Effect.refl _ _
+  · exact doSetInstCore_effect w i x lit
 
 theorem mem_dropSlot {s : Slot} {ms : List (Slot × CellId)} {sc : Slot × CellId}
     (h : sc ∈ dropSlot s ms) : sc ∈ ms := by
@@ -928,9 +945,9 @@ theorem doSlotMut_inst (w : World) (i : InstId) (x : Name) (m : SlotMut) :
       exact slotMut_at_class
 
 /-- `K.x = v` is a class-side step -/
-theorem doSetCls_effect (w : World) (k : ClsId) (x : Name) (lit : Lit) :
-    ClsEffect w (doSetCls w k x lit).1 := by
-  unfold doSetCls
+theorem doSetClsCore_effect (w : World) (k : ClsId) (x : Name) (lit : Lit) :
+    ClsEffect w (doSetClsCore w k x lit).1 := by
+  unfold doSetClsCore
   cases hr : w.resolve k x with
   | none => exact ClsEffect.refl w
   | some kP =>
@@ -965,6 +982,13 @@ theorem doSetCls_effect (w : World) (k : ClsId) (x : Name) (lit : Lit) :
         exact this
       · left
         exact resolve_held hr c (by rw [← hpc]; simp [PObj.cells, hc])
+
+theorem doSetCls_effect (w : World) (k : ClsId) (x : Name) (lit : Lit) :
+    ClsEffect w (doSetCls w k x lit).1 := by
+  unfold doSetCls
+  split
+  · exact ClsEffect.refl w
+  · exact doSetClsCore_effect w k x lit
 
 theorem doMutVal_cells (w : World) (t : Target) (x : Name) (n : Int) :
     ∃ cells', (doMutVal w t x n).1 = { w with cells := cells' } ∧ cells'.length = w.cells.length := by
@@ -1129,19 +1153,25 @@ theorem setupKwargs_spec (w : World) (k : ClsId) (base : Nat) :
       exact ⟨by simp, hg.mono⟩
     · rename_i k' p hr
       split at h
-      · simp at h; obtain ⟨⟨rfl, rfl⟩, _⟩ := h
-        exact ⟨by simp, hg.mono⟩
-      · rename_i cells2 hval
-        obtain ⟨hl, _⟩ := validate_spec hval
-        have hg1 : GoodVals w base cells2 (aset vals x v) := by
-          intro xv hxv c hc
-          rcases mem_aset hxv with rfl | hm
-          · right; have := hv c hc; simp at this; rw [hl]; simp; omega
-          · rcases hg xv hm c hc with h | h
-            · exact Or.inl h
-            · right; rw [hl]; simp; omega
-        obtain ⟨h1, h2⟩ := setupKwargs_spec w k base rest cells2 _ vals' cells' err h (by rw [hl]; simp; omega) hg1
-        exact ⟨by rw [hl] at h1; simp at h1; omega, h2⟩
+      · split at h
+        · obtain ⟨h1, h2⟩ := setupKwargs_spec w k base rest (cells ++ e1) vals vals' cells' err h (by simp; omega) hg.mono
+          exact ⟨by simp at h1; omega, h2⟩
+        · simp at h; obtain ⟨⟨rfl, rfl⟩, _⟩ := h
+          exact ⟨by simp, hg.mono⟩
+      · split at h
+        · simp at h; obtain ⟨⟨rfl, rfl⟩, _⟩ := h
+          exact ⟨by simp, hg.mono⟩
+        · rename_i cells2 hval
+          obtain ⟨hl, _⟩ := validate_spec hval
+          have hg1 : GoodVals w base cells2 (aset vals x v) := by
+            intro xv hxv c hc
+            rcases mem_aset hxv with rfl | hm
+            · right; have := hv c hc; simp at this; rw [hl]; simp; omega
+            · rcases hg xv hm c hc with h | h
+              · exact Or.inl h
+              · right; rw [hl]; simp; omega
+          obtain ⟨h1, h2⟩ := setupKwargs_spec w k base rest cells2 _ vals' cells' err h (by rw [hl]; simp; omega) hg1
+          exact ⟨by rw [hl] at h1; simp at h1; omega, h2⟩
 
 /-- `K(**kwargs)`: containers created by the construction belong to the new instance only; class
 `__dict__`s and the records of existing instances are not touched (cell *contents* are another matter) -/
@@ -1269,24 +1299,30 @@ theorem setupKwargs_frame (w : World) (k : ClsId) (hb : ∀ c : Nat, heldByClass
     · simp at h; obtain ⟨⟨_, rfl⟩, _⟩ := h; exact hd1
     · rename_i k' p hr
       split at h
-      · simp at h; obtain ⟨⟨_, rfl⟩, _⟩ := h; exact hd1
-      · rename_i cells2 hval
-        have : cells2 = cells ++ e1 := by
-          refine validate_safe hval ?_
-          intro hk hcos n c hvn ho
-          have hsafe := hs (x, lit) (by simp) k' p n c hr hk hcos
-          have hlit : lit = .int n := by
-            cases lit with
-            | none => simp [evalLit] at hev; rw [← hev.1] at hvn; simp at hvn
-            | int m => simp [evalLit] at hev; rw [← hev.1] at hvn; simp at hvn; rw [hvn]
-            | list l => simp [evalLit] at hev; rw [← hev.1] at hvn; simp at hvn
-          have hc : c < w.cells.length :=
-            hb c (resolve_held hr c (by simp [PObj.cells]; exact Or.inr ⟨_, aget_mem ho⟩))
-          rw [hd1 c hc]
-          exact hsafe hlit ho
-        subst this
-        exact setupKwargs_frame w k hb rest _ _ vals' cells' err h (by simp; omega) hd1
-          (fun e he => hs e (by simp [he]))
+      · split at h
+        · exact setupKwargs_frame w k hb rest _ _ vals' cells' err h (by simp; omega) hd1
+            (fun e he => hs e (by simp [he]))
+        · simp at h; obtain ⟨⟨_, rfl⟩, _⟩ := h; exact hd1
+      · split at h
+        · simp at h; obtain ⟨⟨_, rfl⟩, _⟩ := h; exact hd1
+        · rename_i cells2 hval
+          have : cells2 = cells ++ e1 := by
+            refine validate_safe hval ?_
+            intro hk hcos n c hvn ho
+            have hsafe := hs (x, lit) (by simp) k' p n c hr hk hcos
+            have hlit : lit = .int n := by
+              cases lit with
+              | pending => simp [evalLit] at hev; rw [← hev.1] at hvn; simp at hvn
+              | none => simp [evalLit] at hev; rw [← hev.1] at hvn; simp at hvn
+              | int m => simp [evalLit] at hev; rw [← hev.1] at hvn; simp at hvn; rw [hvn]
+              | list l => simp [evalLit] at hev; rw [← hev.1] at hvn; simp at hvn
+            have hc : c < w.cells.length :=
+              hb c (resolve_held hr c (by simp [PObj.cells]; exact Or.inr ⟨_, aget_mem ho⟩))
+            rw [hd1 c hc]
+            exact hsafe hlit ho
+          subst this
+          exact setupKwargs_frame w k hb rest _ _ vals' cells' err h (by simp; omega) hd1
+            (fun e he => hs e (by simp [he]))
 
 /-- `_setup_params` before the keyword loop, for a parameter whose class Parameter is `P` (`ov0`: what
 the table held before, i.e. nothing): `instantiate` → an equal but new container (or the same int);
@@ -1440,7 +1476,7 @@ theorem setupKwargs_get (w : World) (k : ClsId) (hb : ∀ c : Nat, heldByClass w
     ∀ (kw : List (Name × Lit)) (cells : List (List Int)) (vals vals' : List (Name × Val))
       (cells' : List (List Int)) (err : Option Err),
     setupKwargs w k kw cells vals = ((vals', cells'), err) →
-    (err = none → ∀ x : Name, x ∉ kw.map (·.1) → aget vals' x = aget vals x) ∧
+    (err = none → ∀ x : Name, x ∉ assignedNames kw → aget vals' x = aget vals x) ∧
     (∀ c : Nat, w.cells.length ≤ c → c < cells.length → deref cells' c = deref cells c) ∧
     cells.length ≤ cells'.length
   | [], cells, vals, vals', cells', err, h => by
@@ -1456,29 +1492,43 @@ theorem setupKwargs_get (w : World) (k : ClsId) (hb : ∀ c : Nat, heldByClass w
       exact ⟨by simp, fun c _ hc => deref_append_lt hc, by simp⟩
     · rename_i k' p hr
       split at h
-      · simp at h; obtain ⟨⟨rfl, rfl⟩, rfl⟩ := h
-        exact ⟨by simp, fun c _ hc => deref_append_lt hc, by simp⟩
-      · rename_i cells2 hval
-        obtain ⟨hl, ht⟩ := validate_spec hval
-        obtain ⟨ih1, ih2, ih3⟩ := setupKwargs_get w k hb rest cells2 _ vals' cells' err h
-        refine ⟨?_, ?_, by rw [hl] at ih3; simp at ih3; omega⟩
-        · intro he x hx
-          simp only [List.map_cons, List.mem_cons, not_or] at hx
-          rw [ih1 he x hx.2, aget_aset_ne _ _ (fun e => hx.1 e.symm)]
-        · intro c hc1 hc2
-          rw [ih2 c hc1 (by rw [hl]; simp; omega)]
-          by_cases hne : deref cells2 c = deref (cells ++ e1) c
-          · rw [hne]; exact deref_append_lt hc2
-          · have hs := ht c hne
-            have : c < w.cells.length := hb c (resolve_held hr c (by simp [PObj.cells]; exact Or.inr (by simpa [PObj.slotCells] using hs)))
-            omega
+      · rename_i hpend
+        split at h
+        · obtain ⟨ih1, ih2, ih3⟩ := setupKwargs_get w k hb rest (cells ++ e1) vals vals' cells' err h
+          refine ⟨?_, ?_, by simp at ih3; omega⟩
+          · intro he x hx
+            exact ih1 he x (by simpa [assignedNames, hpend] using hx)
+          · intro c hc1 hc2
+            rw [ih2 c hc1 (by simp; omega)]
+            exact deref_append_lt hc2
+        · simp at h; obtain ⟨⟨rfl, rfl⟩, rfl⟩ := h
+          exact ⟨by simp, fun c _ hc => deref_append_lt hc, by simp⟩
+      · rename_i hpend
+        split at h
+        · simp at h; obtain ⟨⟨rfl, rfl⟩, rfl⟩ := h
+          exact ⟨by simp, fun c _ hc => deref_append_lt hc, by simp⟩
+        · rename_i cells2 hval
+          obtain ⟨hl, ht⟩ := validate_spec hval
+          obtain ⟨ih1, ih2, ih3⟩ := setupKwargs_get w k hb rest cells2 _ vals' cells' err h
+          refine ⟨?_, ?_, by rw [hl] at ih3; simp at ih3; omega⟩
+          · intro he x hx
+            have hx' : x ≠ x0 ∧ x ∉ assignedNames rest := by
+              simpa [assignedNames, hpend, not_or] using hx
+            rw [ih1 he x hx'.2, aget_aset_ne _ _ (fun e => hx'.1 e.symm)]
+          · intro c hc1 hc2
+            rw [ih2 c hc1 (by rw [hl]; simp; omega)]
+            by_cases hne : deref cells2 c = deref (cells ++ e1) c
+            · rw [hne]; exact deref_append_lt hc2
+            · have hs := ht c hne
+              have : c < w.cells.length := hb c (resolve_held hr c (by simp [PObj.cells]; exact Or.inr (by simpa [PObj.slotCells] using hs)))
+              omega
 
 /-- what a successful `K(**kwargs)` leaves in the new instance for a parameter not given as keyword -/
 theorem doMkInst_values {w : World} {k : ClsId} {kwargs : List (Name × Lit)}
     (hb : ∀ c : Nat, heldByClass w c → c < w.cells.length)
     (hok : (doMkInst w k kwargs).2 = none) :
     ∃ I, (doMkInst w k kwargs).1.insts = w.insts ++ [I] ∧ I.cls = k ∧ I.params = [] ∧
-      ∀ x : Name, x ∈ w.visible k → x ∉ kwargs.map (·.1) → ∀ (k' : ClsId) (P : PObj),
+      ∀ x : Name, x ∈ w.visible k → x ∉ assignedNames kwargs → ∀ (k' : ClsId) (P : PObj),
         w.resolve k x = some (k', P) → InitOK w (doMkInst w k kwargs).1.cells P none (aget I.values x) := by
   unfold doMkInst at hok ⊢
   split at hok
@@ -1578,6 +1628,7 @@ theorem step_effect (w : World) (op : Op) : ∃ h, Effect w (step w op).1 h := b
       · exact ⟨_, h.toEffect⟩
       · exact ⟨none, h.toEffect⟩
     | cls k => exact ⟨none, (doSlotMut_cls w k x m).toEffect⟩
+  | sharedFail => exact ⟨none, Effect.refl _ _⟩
 
 /-- a container created by a step for instance `i` is referenced by nobody else afterwards -/
 theorem Effect.fresh_private {w w' : World} {i : InstId} (e : Effect w w' (some i)) (inv : Inv w)
